@@ -347,7 +347,14 @@ partial def runWire (env : Env) (cfg : Config) (specAcc : List String) : List St
     | .ok ex, .ok ss =>
       match runSections env [{ id := ex, stmts := ss }] with
       | .ok secs =>
-        let spec := ss.map (fun s => match Spec.cmdOf env cfg.keyblobs s with | some c => cmdStr c | none => "?")
+        -- self-check of `elab_one_cmd_partial` on this statement: "!" marks a statement where the model's command is
+        -- not the one the Spec states (outside the two known blob forms)
+        let spec := ss.map (fun s => match Spec.cmdOf env cfg.keyblobs s with
+          | some c =>
+            let bad := !(Spec.isPlainBlobLoad env s) && !(Spec.isProgBlobLeadingZeros env s) &&
+              (match elabStmt env cfg.keyblobs s with | .ok c' => c' != c | .error _ => true)
+            (if bad then "!" else "") ++ cmdStr c
+          | none => "?")
         runWire env { cfg with sections := cfg.sections ++ secs } ((";".intercalate spec) :: specAcc) t1
       | .error e => some (.error e, [])
     | .error e, _ => some (.error e, [])
